@@ -7,6 +7,7 @@ import (
 	"unicode/utf8"
 
 	"github.com/gobwas/ws"
+	"github.com/gobwas/ws/wsflate"
 	"github.com/gobwas/ws/wsutil"
 
 	"verif/eng"
@@ -193,6 +194,13 @@ func C05(r *eng.Run) {
 	marks := MarksOf(s.Frames[:k])
 	marks = append(marks, Mark{bad.Off, 'F'}, Mark{bad.HdrEnd, 'H'}, Mark{bad.End, 'E'})
 
+	if cfg.App == AppReader && !cfg.Extended && r.T.Chance(sim.LCfg, 1, 4) {
+		// An application that attaches its receive extension although the
+		// state does not say an extension was negotiated: reserved bits are
+		// still a violation.
+		cfg.Exts = []wsutil.RecvExtension{&wsflate.MessageState{}}
+		r.Probe("receive_extension_attached_in_non_extended_state")
+	}
 	if cfg.App == AppReader {
 		cfg.SkipEmpty = r.T.Bool(sim.LCfg)
 		cfg.ProbeAfterError = !fragmented && r.T.Bool(sim.LCfg)
